@@ -33,7 +33,7 @@ class RefSub:
 
     def apply(self, op):
         k = op['op']
-        if k in ('create_topic', 'create_subscription'):
+        if k in ('create_topic', 'create_subscription', 'delete_topic'):
             return {'ok': True}
         if k == 'publish':
             ids = list(range(self.next_data, self.next_data + op['count']))
@@ -138,6 +138,11 @@ def build_script(ob_id, info, step):
             ops.append({'op': 'modify', 'sub': SUB, 'mods': [{'id': ackmap[d['ack']], 'secs': 30 + 10 * rank[d['deadline_ns']]} for d in O]})
     if B:
         ops.append({'op': 'publish', 'topic': TOPIC, 'count': len(B)})
+    if info.get('topic_alive') is False:
+        # the state has a dead topic: delete it once the state is built (the subscription stays and keeps what it holds)
+        ops.append({'op': 'delete_topic', 'name': TOPIC})
+        if kind == 'post':
+            return None
     ops.append({'op': 'signal', 'sub': SUB})
     unknown = {}
 
